@@ -63,6 +63,8 @@ class Prop:
         wall-clock bounds): a failure must reproduce when the same case is executed again"""
         if case.startswith("vq seq") or case.startswith("vq conc") or case.startswith("node early") or case.startswith("vq backlog"):
             return True
+        if case.startswith("stream duplex"):
+            return "timely=false" in imp   # only the 1 s bound failed
         if case.startswith("node stop"):
             return "after=0" in imp      # only the wall-clock bound failed
         return False
